@@ -130,13 +130,14 @@ def re_union(parts):
 class ReTranslator:
     """Translate a parsed pattern.  Tracks every character set used (for the high-plane reduction)."""
 
-    def __init__(self):
+    def __init__(self, zset=None):
         self.charsets = []
+        self.zset = zset or z3_charset   # hook: alphabet-compressed sets (vt/strlang_ext.Reducer.z3set)
 
     def _set(self, rs):
         rs = rs_norm(rs)
         self.charsets.append(rs)
-        return z3_charset(rs)
+        return self.zset(rs)
 
     def _in_ranges(self, items):
         neg = False
@@ -246,11 +247,12 @@ class PredTranslator:
     `R.match/fullmatch/search(s)`, `re.match/fullmatch/search(LIT, s)`, `len(s) <op> k`, `s is None`.
     Anything else raises HarnessError (the check then exits 2, never 0)."""
 
-    def __init__(self, fn_node, module_globals, arg=None):
+    def __init__(self, fn_node, module_globals, arg=None, zset=None):
         self.fn = fn_node
         self.g = module_globals
         self.arg = arg or fn_node.args.args[0].arg
-        self.rt = ReTranslator()
+        self.zset = zset or z3_charset
+        self.rt = ReTranslator(self.zset)
         self.env = {}  # local name -> compiled re.Pattern
         self.charsets = self.rt.charsets
 
@@ -317,8 +319,8 @@ class PredTranslator:
                     rs = ranges_from_pred(fn)
                     self.charsets.append(rs)
                     if f.id == 'all':
-                        return z3.Star(z3_charset(rs))
-                    return z3.Concat(re_full(), z3_charset(rs), re_full())
+                        return z3.Star(self.zset(rs))
+                    return z3.Concat(re_full(), self.zset(rs), re_full())
             # regex calls
             if isinstance(f, ast.Attribute) and f.attr in ('match', 'fullmatch', 'search'):
                 if isinstance(f.value, ast.Name) and f.value.id == 're' and len(e.args) == 2 \
